@@ -6,6 +6,7 @@ package main
 import (
 	"errors"
 	"fmt"
+	"sort"
 	"strings"
 	"time"
 
@@ -63,10 +64,10 @@ type stepRec struct {
 
 type runResult struct {
 	steps     []stepRec
-	acks      []string                    // errClass per executed op ("crash", "panic:" for aborted ones)
+	acks      []string                     // errClass per executed op ("crash", "panic:" for aborted ones)
 	models    []map[string]*token.Stateful // model after op j (as acknowledged)
-	crashedIn int                         // -1: none
-	hitIn     int                         // op during which step k happened (-1)
+	crashedIn int                          // -1: none
+	hitIn     int                          // op during which step k happened (-1)
 	viol      *core.Violation
 	stop      bool // set by check: do not continue this history
 }
@@ -365,14 +366,54 @@ func crashOne(h history, dry *runResult, k int, variant string) (outcome string,
 	if lerr != "" || !sameView(run, recovered) {
 		return outcome, sample, mk("restart-differs", fmt.Sprintf("the restarted server honours %s but the file holds %s %s", run, recovered, lerr)), temps
 	}
+	want := cloneModel(allowed[which])
+	delOne := func(n string) *core.Violation {
+		_, tag, err := token.Get(n)
+		if err == nil {
+			err = token.Delete(n, tag)
+		}
+		if err != nil {
+			return mk("restart-cannot-delete", fmt.Sprintf("the restarted server cannot delete token %s: %v", n, err))
+		}
+		delete(want, n)
+		after := freshView(tokenFile())
+		if after.err != "" || !sameToks(after, want) {
+			return mk("restart-delete-not-durable", fmt.Sprintf("after restart, deleting %s leaves a file in which a freshly started server reads %s %s; expected %s (a leftover of the interrupted operation leaked into the rewrite)", n, after, after.err, modelString(want)))
+		}
+		if run, lerr := runningView(watchNames, []string{"g", "h"}); lerr != "" || !sameView(run, after) {
+			return mk("restart-differs", fmt.Sprintf("after restart and the deletion of %s the running server honours %s but the file holds %s %s", n, run, after, lerr))
+		}
+		return nil
+	}
+	sorted := func() []string {
+		var names []string
+		for n := range want {
+			names = append(names, n)
+		}
+		sort.Strings(names)
+		return names
+	}
+	// the first rewrite after the restart makes the file shorter: whatever
+	// the interrupted operation left behind must not leak into it
+	if names := sorted(); len(names) > 0 {
+		// (the token written last is the one a stale tail would bring back)
+		if v := delOne(names[len(names)-1]); v != nil {
+			return outcome, sample, v, temps
+		}
+	}
 	t9 := mkToken("T9", permsA, vtime.Now().Add(time.Hour))
 	if _, err := token.Update(t9.Clone(), ""); err != nil {
 		return outcome, sample, mk("restart-cannot-create", fmt.Sprintf("the restarted server cannot create a token: %v", err)), temps
 	}
-	want := cloneModel(allowed[which])
 	want["T9"] = t9
 	if after := freshView(tokenFile()); !sameToks(after, want) {
 		return outcome, sample, mk("restart-create-lost", fmt.Sprintf("after restart and one create the file holds %s, expected %s", after, modelString(want))), temps
+	}
+	// ... and keeps working until the file is empty
+	for _, n := range sorted() {
+		if v := delOne(n); v != nil {
+			return outcome, sample, v, temps
+		}
 	}
 	return outcome, sample, nil, temps
 }
@@ -444,7 +485,7 @@ func writeStep(op string) bool {
 
 type faultStats struct {
 	expireDiverged, panics int
-	panicAt               []string
+	panicAt                []string
 }
 
 // faultOne runs h with an I/O error injected at vos step k.
